@@ -5,9 +5,11 @@ from common import *  # noqa
 
 INVS = ['.', 'inv', './inv', 'inv/', 'a/../inv', './a/./inv', 'inv//', 'x/y']
 DIRS = ['nodes', 'classes', ' n ', 'n', 'c/d', 'nn/', './m', '1', 'true', 'no', 'a b', 'null', 'targets', 'k#1', "it's"]
-PATS = ['.*', '^zz\\.', 'gone$', 'c[0-9]+', '^$', 'a|b', 'nope', '(', '[a', '*x', '']
-BAD = ['(', '[a', '*x']
-PROBES = ['zz.missing', 'nope', 'gone', 'c1', 'ab', 'd1.gone', 'x']
+# (each pattern is a regular expression of its own: '(a' and 'b)' are both rejected although their alternation would
+#  compile, and the flag of '(?i)nope' does not extend to the patterns listed after it)
+PATS = ['.*', '^zz\\.', 'gone$', 'c[0-9]+', '^$', 'a|b', 'nope', '(', '[a', '*x', '', '(a', 'b)', '(?i)nope', '(?i)^zz']
+BAD = ['(', '[a', '*x', '(a', 'b)']
+PROBES = ['zz.missing', 'nope', 'gone', 'c1', 'ab', 'd1.gone', 'x', 'GONE', 'NOPE', 'C1', 'ZZ.top']
 
 
 def match_pairs():
